@@ -263,6 +263,8 @@ def fold_bit_counters(ck: Checker, rule: str, bench: NumBench | None = None):
         probs, n_inst = [], 0
         rnd = random.Random(77)
         shapes = [[0], [0, 0], [0, 0, 0], [0, 1, 1], [2, 0, 0, 0], [1, 1, 1, 1, 0], [0, 0, 1, 1, 2, 2], [3, 0, 3, 0, 3], [0, 0, 0, 0, 0, 0, 0]]
+        # sparse and top-heavy vectors (levels far apart; a carry that lands next to a distant level)
+        shapes += [[0, 5], [0, 3], [7, 0, 0], [1, 4, 4], [3, 9, 3, 9], [0, 0, 0, 12], [6], [2, 9]]
         shapes += [[rnd.randint(0, 3) for _ in range(rnd.randint(2, 7))] for _ in range(8 if ck.tier == 'quick' else 40)]
         for levels in shapes + [('rep', [0, 0, 1]), ('rep', [1, 1, 1, 0])]:
             n_inst += 1
